@@ -767,4 +767,3 @@ var (
 	_ = io.NewBufBinWriter
 	_ = state.NEP17BalanceFromBytes
 )
-
